@@ -36,7 +36,10 @@ REQUIRED_MONITORS = {'all': ['si_equal_explicit', 'si_equal_implicit', 'si_equal
 ASSUMPTIONS = ['conversion to SI uses the public Scale.dimensionalize of the scale under test',
                'modal coefficients on the unit-sphere basis are scale-free apart from units',
                'log-surface-pressure: the (0,0) coefficient carries log(pressure unit); it is compared '
-               'after adding sqrt(4 pi) log(unit in Pa), the other coefficients directly']
+               'after adding sqrt(4 pi) log(unit in Pa), the other coefficients directly',
+               'comparisons that contain the semi-implicit solve use tol = min(max(1e-10, 10 delta), 1e-8) '
+               '(steps: 40 n delta), delta = measured backward error |(1 - eta L) inverse(x) - x| of each '
+               'execution (two executions cannot agree better than each solves its own system)']
 TIMEOUT = {'quick': 1500, 'thorough': 7200}
 
 TOL = {'f64': 1e-10, 'f32': 1e-3}
